@@ -90,6 +90,14 @@ def witness_crate(d: Decl, extra_inputs=()):
             body.append('    report("FromStr", label, setting, format!("{:?}", %s::from_str(x.as_str()).map(|v| v.into_inner())), expected.clone(), n);\n' % S)
         else:
             body.append('    report("FromStr", label, setting, format!("{:?}", %s::from_str(x.as_str()).map(|v| v.into_inner()).unwrap()), expected.clone(), n);\n' % S)
+    if 'FromStr' in d.derives and d.family in ('int', 'float'):
+        # non-string FromStr (C06): inner parse, then the constructor
+        body.append('    for s in [format!("{:?}", x), format!("{}", x), format!(" {}", x), format!("{}\\n", x), format!("\\u{a0}{}", x), format!("+{}", x), String::new(), "abc".to_string(), "99999999999999999999999999999999999999999999".to_string(), "-0".to_string(), "NaN".to_string(), "inf".to_string(), "1e400".to_string()] {\n')
+        body.append('        let expected_fs = match s.parse::<%s>() { Err(e) => format!("Err(Parse({:?}))", e), Ok(v) => %s };\n'
+                    % (I, ('match %s::try_new(v) { Ok(i) => format!("Ok({:?})", i), Err(e) => format!("Err(Validate({}))", e) }' % R) if has_v
+                       else 'format!("Ok({:?})", %s::sanitize(v))' % R))
+        body.append('        report("FromStr", &format!("{:?}", s), setting, format!("{:?}", %s::from_str(&s).map(|v| v.into_inner())), expected_fs, n);\n' % S)
+        body.append('    }\n')
     # views on the obtained value
     ctor = '%s::try_new(x.clone()).ok()' % S if has_v else 'Some(%s::new(x.clone()))' % S
     body.append('    if let Some(v) = %s {\n' % ctor)
